@@ -319,7 +319,15 @@ where
                         err: err.prettify(&policy.program),
                     },
                 );
-                return ControlFlow::Break(());
+                // An invalid policy ends a state machine that has not accepted a policy yet, but
+                // must not stop a computation that is already under way (erroneous schedule).
+                if matches!(
+                    self.state_kind,
+                    PolicyStateKind::Init | PolicyStateKind::ValidateRequested { .. }
+                ) {
+                    return ControlFlow::Break(());
+                }
+                return ControlFlow::Continue(self);
             }
         };
 
